@@ -44,3 +44,9 @@ Qed.
 
 Lemma scan_terminates o inp : supported o = true -> scan o inp <> OutOfFuel.
 Proof. intros Hs. apply supported_spec in Hs as [H1 H2]. apply Scan_terminates; auto. Qed.
+
+Lemma scan_total o inp : supported o = true -> scan o inp <> OutOfFuel /\ scan o inp <> Panic.
+Proof.
+  intros Hs. split; [apply scan_terminates; exact Hs|].
+  apply supported_spec in Hs as [H1 H2]. apply Scan_no_panic; auto.
+Qed.
